@@ -82,7 +82,8 @@ Substitute(id, k, os) ==
   /\ hist' = Append(hist, [op |-> "Substitute", m |-> << <<id, k>> >>, obs |-> os])
 Substitute2(id1, k1, id2, k2, os) ==
   /\ Fresh(k1) /\ Fresh(k2) /\ k1 # k2 /\ id1 # id2 /\ Ids(Lib[k1]) \cap Ids(Lib[k2]) = {}
-  /\ ~PathPrefix(PathOfId(t, id1), PathOfId(t, id2)) /\ ~PathPrefix(PathOfId(t, id2), PathOfId(t, id1))
+  \* nested targets are allowed: the mappings are applied one after the other, a target that has
+  \* disappeared by then is skipped (SubstResult)
   /\ t' = SubstResult(t, << <<id1, k1>>, <<id2, k2>> >>) /\ used' = used \cup {k1, k2}
   /\ hist' = Append(hist, [op |-> "Substitute", m |-> << <<id1, k1>>, <<id2, k2>> >>, obs |-> os])
 (* the new identities are chosen by the implementation: in generation mode *)
@@ -143,7 +144,6 @@ RNext ==
          k2 == (dice.d % Len(Lib)) + 1
          canRepl == Fresh(k)
          canSub2 == /\ Fresh(k) /\ Fresh(k2) /\ k # k2 /\ id # id2 /\ Ids(Lib[k]) \cap Ids(Lib[k2]) = {}
-                    /\ ~PathPrefix(PathOfId(t, id), PathOfId(t, id2)) /\ ~PathPrefix(PathOfId(t, id2), PathOfId(t, id))
          canExp == OpenPaths(t) # {} /\ Size(t) <= 60 /\ \A q \in OpenPaths(t) : Sub(t, q).n \in DOMAIN G
      IN IF WithSerialize /\ dice.kind \in {3, 6, 11} THEN SerializeOp(SerKinds[(dice.c % 3) + 1], os)
         ELSE IF WithSerialize /\ dice.kind \in {4, 12} /\ ValidTree(G, t) THEN TouchKPathsOp(2 + (dice.c % 2), dice.d % 2 = 0, os)
